@@ -195,6 +195,161 @@ def result_ok(m, cfg, f, args, t):
     return NotImplemented
 
 
+@prim('std::result::Result::<T, E>::err')
+def result_err(m, cfg, f, args, t):
+    # Result::err: Ok(_) -> None, Err(e) -> Some(e)
+    r = refine(m, cfg, t, 0, args[0])
+    if is_variant(r, RESULT, 1):
+        return some(r.fields[0])
+    if is_variant(r, RESULT, 0):
+        return NONE
+    return NotImplemented
+
+
+# ---- further std combinators (each: the documented behaviour, nothing else) ------------------------------------------------
+
+@prim('std::result::Result::<T, E>::or_else')
+def result_or_else(m, cfg, f, args, t):
+    r = refine(m, cfg, t, 0, args[0])      # Ok(v) -> Ok(v) ; Err(e) -> f(e)
+    if is_variant(r, RESULT, 0):
+        return r
+    if is_variant(r, RESULT, 1):
+        return CallThen(args[1], [r.fields[0]], lambda mm, c, v: v)
+    return NotImplemented
+
+
+@prim('std::result::Result::<T, E>::unwrap_or_else')
+def result_unwrap_or_else(m, cfg, f, args, t):
+    r = refine(m, cfg, t, 0, args[0])      # Ok(v) -> v ; Err(e) -> f(e)
+    if is_variant(r, RESULT, 0):
+        return r.fields[0]
+    if is_variant(r, RESULT, 1):
+        return CallThen(args[1], [r.fields[0]], lambda mm, c, v: v)
+    return NotImplemented
+
+
+@prim('std::result::Result::<T, E>::map_or')
+def result_map_or(m, cfg, f, args, t):
+    r = refine(m, cfg, t, 0, args[0])      # Ok(v) -> f(v) ; Err(_) -> default
+    if is_variant(r, RESULT, 0):
+        return CallThen(args[2], [r.fields[0]], lambda mm, c, v: v)
+    if is_variant(r, RESULT, 1):
+        return args[1]
+    return NotImplemented
+
+
+@prim('std::result::Result::<T, E>::as_ref', 'std::result::Result::<T, E>::as_mut', 'std::option::Option::<T>::as_ref', 'std::option::Option::<T>::as_mut')
+def as_ref_variant(m, cfg, f, args, t):
+    # Result<T,E>::as_ref / Option<T>::as_ref: the same variant holding references to the payload
+    a = args[0]
+    v = refine(m, cfg, t, 0, a)
+    if isinstance(v, Adt) and isinstance(a, Ref) and norm_adt(v.adt) in (RESULT, OPTION):
+        if not v.fields:
+            return v
+        return Adt(v.adt, v.variant, [Ref(a.key, tuple(a.path) + (('v', v.variant), ('f', 0, None)), a.mut)])
+    return NotImplemented
+
+
+@prim('std::option::Option::<T>::unwrap_or_else')
+def option_unwrap_or_else(m, cfg, f, args, t):
+    o = refine(m, cfg, t, 0, args[0])      # Some(v) -> v ; None -> f()
+    if is_variant(o, OPTION, 1):
+        return o.fields[0]
+    if is_variant(o, OPTION, 0):
+        return CallThen(args[1], [], lambda mm, c, v: v)
+    return NotImplemented
+
+
+@prim('std::option::Option::<T>::or_else')
+def option_or_else(m, cfg, f, args, t):
+    o = refine(m, cfg, t, 0, args[0])      # Some(v) -> Some(v) ; None -> f()
+    if is_variant(o, OPTION, 1):
+        return o
+    if is_variant(o, OPTION, 0):
+        return CallThen(args[1], [], lambda mm, c, v: v)
+    return NotImplemented
+
+
+@prim('std::option::Option::<T>::or')
+def option_or(m, cfg, f, args, t):
+    o = refine(m, cfg, t, 0, args[0])
+    if is_variant(o, OPTION, 1):
+        return o
+    if is_variant(o, OPTION, 0):
+        return args[1]
+    return NotImplemented
+
+
+@prim('std::option::Option::<T>::filter')
+def option_filter(m, cfg, f, args, t):
+    o = refine(m, cfg, t, 0, args[0])      # Some(v) if pred(&v) -> Some(v) ; otherwise None
+    if is_variant(o, OPTION, 0):
+        return NONE
+    if is_variant(o, OPTION, 1):
+        key = ('obj', fresh('filter'))
+        cfg.st.mem[key] = o.fields[0]
+
+        def post(mm, c, b):
+            if isinstance(b, Int) and b.is_const():
+                return o if b.c else NONE
+            raise Abort('Option::filter with an undecided predicate')
+        return CallThen(args[1], [Ref(key, ())], post)
+    return NotImplemented
+
+
+@prim('std::option::Option::<T>::map_or_else')
+def option_map_or_else(m, cfg, f, args, t):
+    o = refine(m, cfg, t, 0, args[0])      # Some(v) -> f(v) ; None -> default()
+    if is_variant(o, OPTION, 1):
+        return CallThen(args[2], [o.fields[0]], lambda mm, c, v: v)
+    if is_variant(o, OPTION, 0):
+        return CallThen(args[1], [], lambda mm, c, v: v)
+    return NotImplemented
+
+
+@prim('std::option::Option::<T>::take')
+def option_take(m, cfg, f, args, t):
+    a = args[0]
+    if isinstance(a, Ref):
+        v = m.read_path(cfg.st, a.key, a.path)
+        if isinstance(v, Adt) and norm_adt(v.adt) == OPTION:
+            m.write_path(cfg.st, a.key, a.path, NONE)
+            return v
+    return NotImplemented
+
+
+@prim('std::option::Option::<std::result::Result<T, E>>::transpose')
+def option_transpose(m, cfg, f, args, t):
+    o = refine(m, cfg, t, 0, args[0])      # None -> Ok(None) ; Some(Ok(v)) -> Ok(Some(v)) ; Some(Err(e)) -> Err(e)
+    if is_variant(o, OPTION, 0):
+        return ok(NONE)
+    if is_variant(o, OPTION, 1):
+        r = o.fields[0]
+        if is_variant(r, RESULT, 0):
+            return ok(some(r.fields[0]))
+        if is_variant(r, RESULT, 1):
+            return r
+    return NotImplemented
+
+
+@prim('std::bool::<impl bool>::then_some')
+def bool_then_some(m, cfg, f, args, t):
+    b = args[0]
+    if isinstance(b, Int) and b.is_const():
+        return some(args[1]) if b.c else NONE
+    return NotImplemented
+
+
+@prim('std::bool::<impl bool>::then')
+def bool_then(m, cfg, f, args, t):
+    b = args[0]
+    if isinstance(b, Int) and b.is_const():
+        if not b.c:
+            return NONE
+        return CallThen(args[1], [], lambda mm, c, v: some(v))
+    return NotImplemented
+
+
 @prim('std::result::Result::<T, E>::is_ok', 'std::result::Result::<T, E>::is_err')
 def result_is_ok(m, cfg, f, args, t):
     r = deref(m, cfg.st, args[0])
